@@ -15,16 +15,22 @@ import (
 // insertChecked sends an INSERT/REPLACE through the proxy and checks C03 on the physical tables.
 // special[i] != "" replaces the sharding value of row i by that expression text (its value is rows[i][key]).
 func (d *dataWorld) insertChecked(tp *simkit.Tape, rows [][]sqlmini.Value, special []string, stats map[string]int) bool {
+	return d.insertCheckedInto(tp, d.rule.table, d.keyIndex(), rows, special, stats)
+}
+
+// insertCheckedInto sends an INSERT for the sharded table or its linked child (whose sharding column may be another
+// one) and checks that each row is stored exactly once, where a point query on its sharding value finds it.
+func (d *dataWorld) insertCheckedInto(tp *simkit.Tape, table string, keyIdx int, rows [][]sqlmini.Value, special []string, stats map[string]int) bool {
 	rule := d.rule
-	before := d.snapshot(rule.db, rule.table)
-	sql := insertSQL(rule.table, rows, false)
+	before := d.snapshot(rule.db, table)
+	sql := insertSQL(table, rows, false)
 	if special != nil {
 		// rebuild with expression texts in place of the sharding values
 		var vs []string
 		for i, row := range rows {
 			var c []string
 			for k, v := range row {
-				if k == d.keyIndex() && special[i] != "" {
+				if k == keyIdx && special[i] != "" {
 					c = append(c, special[i])
 				} else {
 					c = append(c, lit(v))
@@ -32,16 +38,16 @@ func (d *dataWorld) insertChecked(tp *simkit.Tape, rows [][]sqlmini.Value, speci
 			}
 			vs = append(vs, "("+strings.Join(c, ", ")+")")
 		}
-		sql = fmt.Sprintf("insert into %s (%s) values %s", rule.table, strings.Join(dataCols, ", "), strings.Join(vs, ", "))
+		sql = fmt.Sprintf("insert into %s (%s) values %s", table, strings.Join(dataCols, ", "), strings.Join(vs, ", "))
 	} else if len(rows) == 1 && tp.Chance(1, 4) {
 		var sets []string
 		for k, v := range rows[0] {
 			sets = append(sets, dataCols[k]+" = "+lit(v))
 		}
-		sql = fmt.Sprintf("insert into %s set %s", rule.table, strings.Join(sets, ", "))
+		sql = fmt.Sprintf("insert into %s set %s", table, strings.Join(sets, ", "))
 	}
 	o := d.run(sql)
-	after := d.snapshot(rule.db, rule.table)
+	after := d.snapshot(rule.db, table)
 	d.r.Sched("op", fmt.Sprintf("insert/%d/%v", len(rows), o.err == nil))
 	d.r.Logf("%q -> %s; backends: %q", sql, errText(o.err), o.recvSQL)
 	if o.err != nil && !o.refused {
@@ -69,7 +75,7 @@ func (d *dataWorld) insertChecked(tp *simkit.Tape, rows [][]sqlmini.Value, speci
 				}
 			}
 		}
-		rt := d.ref.Get(rule.db, rule.table)
+		rt := d.ref.Get(rule.db, table)
 		for _, row := range rows {
 			if have[rowKey(row)] > 0 {
 				have[rowKey(row)]--
@@ -90,7 +96,7 @@ func (d *dataWorld) insertChecked(tp *simkit.Tape, rows [][]sqlmini.Value, speci
 	stats["insert-accepted"]++
 	if rule.inRange != nil {
 		for _, row := range rows {
-			if k := row[d.keyIndex()]; !rule.inRange(k) {
+			if k := row[keyIdx]; !rule.inRange(k) {
 				stats["insert-out-of-range-key"]++
 				if d.fail("C03-unroutable-row-accepted", "%q was accepted although the sharding value %s of row %v lies outside every configured range of the %s rule (%+v)", sql, k.String(), rowKey(row), rule.typ, *rule.shard) {
 					return false
@@ -108,17 +114,17 @@ func (d *dataWorld) insertChecked(tp *simkit.Tape, rows [][]sqlmini.Value, speci
 		// keep the reference in step with what is really stored is impossible now: stop this run quietly
 		return false
 	}
-	rt := d.ref.Get(rule.db, rule.table)
+	rt := d.ref.Get(rule.db, table)
 	for _, row := range rows {
 		rt.Rows = append(rt.Rows, append([]sqlmini.Value{}, row...))
 	}
 	// every row sits where a point query on its key looks
 	for _, row := range rows {
-		k := row[d.keyIndex()]
+		k := row[keyIdx]
 		if k.Null {
 			continue
 		}
-		q := fmt.Sprintf("select * from %s where %s = %s and id = %s", rule.table, rule.key, lit(k), lit(row[0]))
+		q := fmt.Sprintf("select * from %s where %s = %s and id = %s", table, dataCols[keyIdx], lit(k), lit(row[0]))
 		p := d.run(q)
 		found := false
 		if p.err == nil && p.res != nil {
@@ -165,7 +171,7 @@ func (d *dataWorld) populate(tp *simkit.Tape, stats map[string]int) bool {
 	// rows of the linked child table for some keys (placed by the parent's rule)
 	if d.child != "" {
 		for i := 0; i < 6; i++ {
-			row := d.newRow(tp, keys[tp.Choose(len(keys))])
+			row := d.newChildRow(tp, keys[tp.Choose(len(keys))])
 			sql := insertSQL(d.child, [][]sqlmini.Value{row}, false)
 			o := d.run(sql)
 			d.r.Logf("%q -> %s", sql, errText(o.err))
@@ -251,8 +257,41 @@ func (d *dataWorld) opInsert(tp *simkit.Tape, stats map[string]int) {
 		d.breakInsertOn = stripAddr(d.w.NS["ns1"].Slices[tp.Choose(d.rule.nSlices)].Master)
 		d.faulted = true
 	}
+	if d.child != "" && special == nil && !d.faulted && tp.Chance(1, 4) {
+		// the same rows into the linked child table: placed by the parent's rule applied to the child's own sharding column
+		for i, row := range rows {
+			rows[i] = d.asChildRow(row, row[d.keyIndex()])
+		}
+		stats["insert-into-linked-child"]++
+		d.insertCheckedInto(tp, d.child, d.childKeyIndex(), rows, nil, stats)
+		return
+	}
 	d.insertChecked(tp, rows, special, stats)
 	d.breakInsertOn, d.faulted = "", false
+}
+
+func (d *dataWorld) childKeyIndex() int {
+	for i, c := range dataCols {
+		if c == d.childKey {
+			return i
+		}
+	}
+	return 0
+}
+
+// asChildRow turns a row drawn for the parent into a row of the child with the same sharding value
+func (d *dataWorld) asChildRow(row []sqlmini.Value, key sqlmini.Value) []sqlmini.Value {
+	out := append([]sqlmini.Value{}, row...)
+	if ci := d.childKeyIndex(); ci != d.keyIndex() {
+		d.nextID++
+		out[d.keyIndex()] = sqlmini.Int(d.nextID) // the parent's key column is an ordinary column here
+		out[ci] = key
+	}
+	return out
+}
+
+func (d *dataWorld) newChildRow(tp *simkit.Tape, key sqlmini.Value) []sqlmini.Value {
+	return d.asChildRow(d.newRow(tp, key), key)
 }
 
 // ---------- conditions (C01 grammar) ----------
@@ -501,9 +540,9 @@ func (d *dataWorld) opSelect(tp *simkit.Tape, stats map[string]int) {
 		case pick == 13 && d.child != "":
 			shape = "join-linked-child"
 			kind := []string{"join", "left join"}[tp.Choose(2)]
-			sql = fmt.Sprintf("select %s.id, %s.%s, c.id, c.v from %s %s %s c on %s.%s = c.%s where %s", t, t, rule.key, t, kind, d.child, t, rule.key, rule.key, cond)
+			sql = fmt.Sprintf("select %s.id, %s.%s, c.id, c.v from %s %s %s c on %s.%s = c.%s where %s", t, t, rule.key, t, kind, d.child, t, rule.key, d.childKey, cond)
 			if tp.Chance(1, 3) {
-				sql = fmt.Sprintf("select %s.g, count(*), sum(c.v) from %s join %s c on %s.%s = c.%s where %s group by %s.g", t, t, d.child, t, rule.key, rule.key, cond, t)
+				sql = fmt.Sprintf("select %s.g, count(*), sum(c.v) from %s join %s c on %s.%s = c.%s where %s group by %s.g", t, t, d.child, t, rule.key, d.childKey, cond, t)
 			}
 		case d.global != "":
 			shape = "join-global"
@@ -680,7 +719,7 @@ func (d *dataWorld) opModify(tp *simkit.Tape, stats map[string]int) {
 		if sqlCond == "" {
 			sqlCond = cond
 		}
-		if d.child != "" && tp.Chance(1, 4) {
+		if d.child != "" && d.childKey == rule.key && tp.Chance(1, 4) {
 			// the linked child table is placed by the same key: assigning it must be refused as well
 			tref = d.child
 			target = strings.Replace(target, t+".", d.child+".", 1)
